@@ -24,9 +24,17 @@ SPT = '_SetPointThread#0'
 CFG = {
     ('MC', 300): 'TRACE_Flight.cfg',
     ('MC', 500): 'TRACE_Flight_b.cfg',
-    ('PHC', 500, 500, 0): 'TRACE_Flight_hl.cfg',
-    ('PHC', 400, 250, 200): 'TRACE_Flight_hl_b.cfg',
+    ('PHC', 500, 500, 0, 0, 0, 0): 'TRACE_Flight_hl.cfg',
+    ('PHC', 400, 250, 200, 0, 0, 0): 'TRACE_Flight_hl_b.cfg',
+    ('PHC', 500, 500, 200, 1000, 500, 200): 'TRACE_Flight_hl_c.cfg',     # starts on a table, away from the origin
 }
+HL_A, HL_B, HL_C = (500, 500, 0, 0, 0, 0), (400, 250, 200, 0, 0, 0), (500, 500, 200, 1000, 500, 200)
+
+
+def hl_sc(cfg, mode, prog, kind='fifo'):
+    dh, dv, dl, x0, y0, z0 = cfg
+    return {'helper': 'PHC', 'mode': mode, 'prog': prog, 'dh': dh, 'dv': dv, 'dl': dl, 'x0': x0, 'y0': y0, 'z0': z0,
+            'sched': {'kind': kind}}
 
 
 def Pr(op, a=0, b=0, c=0, v=0, w=0):
@@ -142,6 +150,15 @@ def _install():
                 _log('vel', vx=qsnap(vx), vy=qsnap(vy), vz=qsnap(vz), yaw=qsnap(yaw))
             o_put(item)
         qu._put = put
+        o_get = qu._get
+
+        def get():              # executed when the setpoint thread takes an item (linearisation point of the get)
+            item = o_get()
+            if not isinstance(item, str):
+                vx, vy, vz, yaw = item
+                _log('take', vx=qsnap(vx), vy=qsnap(vy), vz=qsnap(vz), yaw=qsnap(yaw))
+            return item
+        qu._get = get
 
     def start(self):
         _log('spstart')
@@ -152,7 +169,13 @@ def _install():
         _log('join')
 
     def run(self):
-        o_run(self)
+        try:
+            o_run(self)
+        except vcore.Kill:      # the scheduler ends a thread that is still alive at the end of the execution
+            raise
+        except BaseException:
+            _log('spdead')      # run() ended with an exception: nothing is streamed any more
+            raise
         _log('spdone')
     T.__init__, T.start, T.stop, T.run = init, start, stop, run
     T._c17_orig = {'run': o_run}
@@ -166,9 +189,20 @@ def _make_cf():
     class RecCommander(Commander):
         def send_hover_setpoint(self, vx, vy, yawrate, zdistance):
             z = zdistance * 1e6
-            _log('hover', vx=qsnap(vx), vy=qsnap(vy), yaw=qsnap(yawrate),
+            r = _Rec.cur
+            lat = 0
+            if r is not None and r['lat']:      # the link keeps the sender for lat ms (a full tx queue, congestion)
+                pat, cyc = r['lat'], r['latcyc']
+                k = r['nh']
+                r['nh'] += 1
+                lat = pat[k % len(pat)] if cyc else (pat[k] if k < len(pat) else 0)
+            _log('hover', vx=qsnap(vx), vy=qsnap(vy), yaw=qsnap(yawrate), lat=lat,
                  z=max(-2000000000, min(2000000000, int(round(z)))) if math.isfinite(z) else 2000000000)
             Commander.send_hover_setpoint(self, vx, vy, yawrate, zdistance)
+            if lat:
+                import cflib.positioning.motion_commander as mcm
+                mcm.time.sleep(lat / 1000.0)
+                _log('hovd')
 
         def send_stop_setpoint(self):
             _log('stop')
@@ -279,6 +313,16 @@ def call_prim(h, helper, p):
         if op == 'stop':
             return h.stop()
     else:
+        if op == 'land':
+            kw = {} if w == 1 else {'landing_height': _m(c)}
+            if v:
+                kw['velocity'] = _m(v)
+            return h.land(**kw)
+        if op == 'takeoff':
+            kw = {} if w == 1 else {'height': _m(c)}
+            if v:
+                kw['velocity'] = _m(v)
+            return h.take_off(**kw)
         if op == 'goto':
             args = [_m(a), _m(b)]
             kw = {}
@@ -298,6 +342,14 @@ def call_prim(h, helper, p):
 
 class Scripted(Exception):
     """The exception the user's body raises."""
+
+
+class ScriptedBase(BaseException):
+    """... one that is not an Exception (like KeyboardInterrupt, SystemExit, GeneratorExit)."""
+
+
+# 'raise' a = kind of exception that leaves the body
+KINDS = [Scripted, KeyboardInterrupt, SystemExit, GeneratorExit, ScriptedBase]
 
 
 # --------------------------------------------------------------------------- scheduling policies
@@ -377,7 +429,7 @@ def execute(sc, mutant=None):
     res = {'outcome': 'hang', 'exc': ''}
     try:
         with vsched.scheduler(pol) as s:
-            _Rec.cur = {'s': s, 'ev': ev}
+            _Rec.cur = {'s': s, 'ev': ev, 'lat': list(sc.get('lat') or []), 'latcyc': bool(sc.get('latcyc')), 'nh': 0}
             s.on_step = lambda sch, who: _log('tick') if who is vcore.TICK else None
             cf = _make_cf()
 
@@ -392,7 +444,8 @@ def execute(sc, mutant=None):
                 for k, p in enumerate(prog, 1):
                     _log('prim', k=k)
                     if p['op'] == 'raise':
-                        raise Scripted()
+                        res['body_exc'] = KINDS[p['a']]()
+                        raise res['body_exc']
                     try:
                         call_prim(h, helper, p)
                     except Exception as e:
@@ -406,7 +459,8 @@ def execute(sc, mutant=None):
                     if helper == 'MC':
                         h = mcm.MotionCommander(cf, default_height=_m(sc['dh']))
                     else:
-                        h = phm.PositionHlCommander(cf, default_velocity=_m(sc['dv']), default_height=_m(sc['dh']),
+                        h = phm.PositionHlCommander(cf, x=_m(sc.get('x0', 0)), y=_m(sc.get('y0', 0)), z=_m(sc.get('z0', 0)),
+                                                    default_velocity=_m(sc['dv']), default_height=_m(sc['dh']),
                                                     default_landing_height=_m(sc['dl']))
                     if mode == 'with':
                         with h:
@@ -420,8 +474,9 @@ def execute(sc, mutant=None):
                         _log('exit')
                         h.land()
                     res['outcome'] = 'ok'
-                except Scripted:
-                    res['outcome'] = 'scripted'
+                except tuple(KINDS) as e:
+                    res['outcome'] = 'scripted' if e is res.get('body_exc') else 'other'
+                    res['exc'] = '' if isinstance(e, Scripted) else type(e).__name__
                 except Exception as e:
                     res['outcome'] = 'scripted' if e is res.get('body_exc') else 'other'
                     res['exc'] = type(e).__name__
@@ -439,7 +494,8 @@ def execute(sc, mutant=None):
         if undo:
             undo()
     return {'helper': helper, 'mode': mode, 'prog': prog, 'dh': sc['dh'], 'dv': sc.get('dv', 500), 'dl': sc.get('dl', 0),
-            'ev': ev, 'outcome': res['outcome'], 'exc': res['exc'], 'schedule': res.get('schedule', []),
+            'x0': sc.get('x0', 0), 'y0': sc.get('y0', 0), 'z0': sc.get('z0', 0),
+            'lat': list(sc.get('lat') or []), 'latcyc': bool(sc.get('latcyc')), 'ev': ev, 'outcome': res['outcome'], 'exc': res['exc'], 'schedule': res.get('schedule', []),
             'drift': res.get('drift', 0), 'packets': res.get('packets', 0)}
 
 
@@ -529,6 +585,52 @@ def _mutants():
         mcm.time.sleep((angle_degrees % 360.0) / rate)
         self.stop()
 
+    def run_period_minus_send_time(self):                    # "constant period", not clamped at 0
+        last_sent = mcm.time.time()
+        while True:
+            try:
+                event = self._queue.get(block=True, timeout=self.update_period - (mcm.time.time() - last_sent))
+                if event == self.TERMINATE_EVENT:
+                    return
+                self._new_setpoint(*event)
+            except mcm.Empty:
+                pass
+            self._update_z_in_setpoint()
+            last_sent = mcm.time.time()
+            self._cf.commander.send_hover_setpoint(*self._hover_setpoint)
+
+    def run_dies(self):
+        try:
+            run_period_minus_send_time(self)
+        except ValueError:
+            _log('spdead')
+            raise
+
+    def mc_exit_fast_path(self, exc_type, exc_val, exc_tb):  # anything that is not an Exception: "down now"
+        if exc_type is not None and not issubclass(exc_type, Exception) and self._is_flying:
+            self._cf.commander.send_stop_setpoint()
+            self._cf.commander.send_notify_setpoint_stop()
+            self._is_flying = False
+            return
+        self.land()
+
+    def exit_only_for_exception(self, exc_type, exc_val, exc_tb):
+        if exc_type is None or issubclass(exc_type, Exception):
+            self.land()
+
+    def hl_takeoff_adds(self, height=PH.DEFAULT, velocity=PH.DEFAULT):
+        if self._is_flying:
+            raise Exception('Already flying')
+        hold_back = self._init_time + 1.0 - phm.time.time()
+        if hold_back > 0.0:
+            phm.time.sleep(hold_back)
+        self._is_flying = True
+        height = self._height(height)
+        duration_s = height / self._velocity(velocity)
+        self._hl_commander.takeoff(height, duration_s)
+        phm.time.sleep(duration_s)
+        self._z += height
+
     def hl_goto_no_record(self, x, y, z=PH.DEFAULT, velocity=PH.DEFAULT):
         z = self._height(z)
         dx, dy, dz = x - self._x, y - self._y, z - self._z
@@ -587,6 +689,10 @@ def _mutants():
         'MC:resend_period_doubled': run_wrapped,
         'MC:duplicate_command_skipped': lambda: run_wrapped(run_skips_duplicates),
         'MC:turn_angle_mod_360': both_turns,
+        'MC:wait_minus_send_time_unclamped': lambda: run_wrapped(run_dies),
+        'MC:exit_fast_path_unless_Exception': mk(MC, '__exit__', mc_exit_fast_path),
+        'PHC:exit_lands_only_for_Exception': mk(PH, '__exit__', exit_only_for_exception),
+        'PHC:takeoff_adds_height': mk(PH, 'take_off', hl_takeoff_adds),
         'PHC:goto_forgets_z': mk(PH, 'go_to', hl_goto_no_record),
         'PHC:duration_is_distance_times_velocity': mk(PH, 'go_to', hl_goto_wrong_time),
         'PHC:move_relative_to_origin': mk(PH, 'move_distance', hl_move_relative_to_origin),
@@ -630,6 +736,13 @@ HL_QUICK = [Pr('move', 500), Pr('move', 0, 0, -600), Pr('goto', 1000, 0, 0, 0, 1
 HL_MORE = [Pr('goto', 0, 0, 1000, 500, 0), Pr('setl', c=700), Pr('move', 0, 0, 0), Pr('goto', 300, 400, 0, 100, 1),
            Pr('move', 0, 0, 200, 100)]
 RAISE = Pr('raise')
+RAISES = [Pr('raise', a) for a in range(len(KINDS))]        # a = kind of exception (KINDS)
+# several flights of one PositionHlCommander: land on the default / another height, take off again to the default /
+# another height, moves in between, the landing height changed on the way
+HL_CYCLE = [Pr('land', w=1), Pr('land', c=0, v=250), Pr('takeoff', w=1), Pr('takeoff', c=300, v=250), Pr('move', 500),
+            Pr('move', 0, 0, 200), Pr('setl', c=100)]
+# what the link does to the hover setpoints: (latencies in ms, repeated cyclically?)
+LAT_PATTERNS = [([150], True), ([200], True), ([250], True), ([0, 0, 0, 250], True), ([0, 0, 0, 0, 0, 0, 0, 0, 0, 0, 0, 0, 450], False)]
 
 
 def _programs(alpha, maxlen):
@@ -653,30 +766,61 @@ def scenarios_enumerated(tier):
     hl_a, hl_n = (HL_QUICK, 2) if tier == 'quick' else (HL_QUICK + HL_MORE, 3)
     mc_e = MC_EDGE if tier == 'quick' else MC_EDGE + MC_EDGE_MORE
     mc_progs = list(_programs(mc_a, mc_n)) + [p for p in _programs(mc_a + mc_e, 2) if any(x in mc_e for x in p)]
-    for prog in mc_progs:
+    for n, prog in enumerate(mc_progs):
         for tail in ([], [RAISE]):
             for kind in ('fifo', 'spfirst'):
                 out.append({'helper': 'MC', 'mode': 'with', 'prog': prog + tail, 'dh': 300, 'sched': {'kind': kind}})
+        # the exception that leaves the body is not an Exception (KeyboardInterrupt, SystemExit, GeneratorExit, a
+        # BaseException subclass): every kind after every program up to length 1, one kind (in turn) after the others
+        # (programs of length 3, thorough tier: every fourth)
+        for r in (RAISES[1:] if len(prog) <= 1 else [RAISES[1 + n % 4]] if len(prog) == 2 or n % 4 == 0 else []):
+            for kind in (('fifo', 'spfirst') if len(prog) <= 1 else (('fifo', 'spfirst')[(n // 4) % 2],)):
+                out.append({'helper': 'MC', 'mode': 'with', 'prog': prog + [r], 'dh': 300, 'sched': {'kind': kind}})
         if len(prog) <= 2 and not any(_throws(p, 'MC') for p in prog):
             out.append({'helper': 'MC', 'mode': 'explicit', 'prog': prog, 'dh': 300, 'sched': {'kind': 'spfirst'}})
             out.append({'helper': 'MC', 'mode': 'with', 'prog': prog, 'dh': 500, 'sched': {'kind': 'fifo'}})
+    import itertools
     for n in ((3,) if tier == 'quick' else (3, 4)):
-        import itertools
         for t in itertools.product(MC_TIMED, repeat=n):
             for kind in ('fifo', 'spfirst'):
                 out.append({'helper': 'MC', 'mode': 'with', 'prog': list(t), 'dh': 300, 'sched': {'kind': kind}})
-    for prog in _programs(hl_a, hl_n):
-        if not _hl_rational(prog, 500, 500, 0):
+    # the link keeps the sender of a hover setpoint (a bit less than / exactly / more than the update period, every send
+    # / one in four / one late in the flight): programs up to length 1 and the pause/repeat programs of length 2
+    # (no circles here: their durations are irrational and Flight.tla's clock is in ms -- conformance only)
+    lat_progs = [p for p in _programs(mc_a + mc_e, 1) if not any(x['op'] == 'circle' for x in p)]
+    lat_progs += [list(t) for t in itertools.product(MC_TIMED, repeat=2)]
+    if tier != 'quick':
+        lat_progs += [list(t) for t in itertools.product(MC_TIMED, repeat=3)]
+    for prog in lat_progs:
+        for pat, cyc in LAT_PATTERNS:
+            for kind in ('fifo', 'spfirst'):
+                out.append({'helper': 'MC', 'mode': 'with', 'prog': prog, 'dh': 300, 'sched': {'kind': kind},
+                            'lat': pat, 'latcyc': cyc})
+    for n, prog in enumerate(_programs(hl_a, hl_n)):
+        if not _hl_rational(prog, *HL_A):
             continue
         for tail in ([], [RAISE]):
-            out.append({'helper': 'PHC', 'mode': 'with', 'prog': prog + tail, 'dh': 500, 'dv': 500, 'dl': 0,
-                        'sched': {'kind': 'fifo'}})
+            out.append(hl_sc(HL_A, 'with', prog + tail))
+        for r in (RAISES[1:] if len(prog) <= 1 else [RAISES[1 + n % 4]] if len(prog) == 2 or n % 4 == 0 else []):
+            out.append(hl_sc(HL_A, 'with', prog + [r]))
         if len(prog) <= 2:
-            out.append({'helper': 'PHC', 'mode': 'explicit', 'prog': prog, 'dh': 500, 'dv': 500, 'dl': 0,
-                        'sched': {'kind': 'fifo'}})
-            if _hl_rational(prog, 400, 250, 200):
-                out.append({'helper': 'PHC', 'mode': 'with', 'prog': prog, 'dh': 400, 'dv': 250, 'dl': 200,
-                            'sched': {'kind': 'fifo'}})
+            out.append(hl_sc(HL_A, 'explicit', prog))
+            if _hl_rational(prog, *HL_B):
+                out.append(hl_sc(HL_B, 'with', prog))
+            # the object was constructed at a start position that is not the origin (on a table)
+            if _hl_rational(prog, *HL_C):
+                for tail in ([], [RAISE]):
+                    out.append(hl_sc(HL_C, 'with', prog + tail))
+                out.append(hl_sc(HL_C, 'explicit', prog))
+    # several flights of one object: all well-formed programs over HL_CYCLE, from the origin and from the table
+    for prog in _programs(HL_CYCLE, 3 if tier == 'quick' else 4):
+        if not any(p['op'] in ('land', 'takeoff') for p in prog):
+            continue
+        for cfg in (HL_A, HL_C):
+            if _hl_rational(prog, *cfg):
+                out.append(hl_sc(cfg, 'explicit', prog))
+                if len(prog) <= 3:
+                    out.append(hl_sc(cfg, 'with', prog))
     return out
 
 
@@ -761,13 +905,31 @@ def random_prim(rng, helper):
     return Pr('setl', c=rng.choice([0, 200, 700]))
 
 
-def _hl_rational(prog, dh, dv, dl):
+def _hl_rational(prog, dh, dv, dl, x0=0, y0=0, z0=0):
     """PositionHlCommander programs are restricted to displacement vectors of rational length and
-    whole-millisecond durations (see assumptions): filter for the random source."""
-    x = y = 0
+    whole-millisecond durations (see assumptions), and to well-formed flights (moves and land() while flying,
+    take_off() while landed): filter for the enumerations and the random source."""
+    x, y = x0, y0
     z = dh
-    cdv, cdh = dv, dh
+    cdv, cdh, cdl = dv, dh, dl
+    fly = True
     for p in prog:
+        if p['op'] in ('move', 'goto', 'land') and not fly:
+            return False
+        if p['op'] == 'takeoff':
+            if fly:
+                return False
+            z = cdh if p['w'] == 1 else p['c']
+            if z <= 0 or (z * 1000) % (p['v'] or cdv):
+                return False
+            fly = True
+        elif p['op'] == 'land':
+            lh = cdl if p['w'] == 1 else p['c']
+            if (abs(z - lh) * 1000) % (p['v'] or cdv):
+                return False
+            z, fly = lh, False
+        elif p['op'] == 'setl':
+            cdl = p['c']
         if p['op'] in ('move', 'goto'):
             if p['op'] == 'move':
                 t = (x + p['a'], y + p['b'], z + p['c'])
@@ -792,35 +954,54 @@ def scenarios_random(tier, rng):
     while len(out) < n_mc:
         prog = [p for _ in range(rng.randint(2, 8)) for p in random_prims(rng, 'MC')]
         if rng.random() < 0.3:
-            prog.insert(rng.randint(0, len(prog)), RAISE)
-            prog = prog[:prog.index(RAISE) + 1]
+            prog = prog[:rng.randint(0, len(prog))] + [rng.choice(RAISES)]
         kind = rng.choice(['fifo', 'spfirst', 'random', 'random', 'pct'])
         dh = rng.choice([300, 300, 500])
-        out.append({'helper': 'MC', 'mode': 'with', 'prog': prog, 'dh': dh,
-                    'sched': {'kind': kind, 'seed': rng.randrange(1 << 30)}})
+        sc = {'helper': 'MC', 'mode': 'with', 'prog': prog, 'dh': dh, 'sched': {'kind': kind, 'seed': rng.randrange(1 << 30)}}
+        if rng.random() < 0.25:     # a link that keeps the sender now and then, or always
+            if rng.random() < 0.5:
+                sc['lat'], sc['latcyc'] = rng.choice(LAT_PATTERNS)
+            else:
+                sc['lat'], sc['latcyc'] = [rng.choice([0, 0, 0, 50, 150, 200, 250, 600]) for _ in range(rng.randint(3, 9))], True
+        out.append(sc)
     k = 0
     while k < n_hl:
-        dh, dv, dl = rng.choice([(500, 500, 0), (400, 250, 200)])
+        cfg = rng.choice([HL_A, HL_B, HL_C])
         prog = [p for _ in range(rng.randint(2, 8)) for p in random_prims(rng, 'PHC')]
-        if not _hl_rational(prog, dh, dv, dl):
+        if rng.random() < 0.35:     # further flights of the same object
+            for _ in range(rng.randint(1, 2)):
+                i = rng.randint(0, len(prog))
+                prog[i:i] = [rng.choice([Pr('land', w=1), Pr('land', c=rng.choice([0, 100, 300]), v=rng.choice([0, 250]))]),
+                             rng.choice([Pr('takeoff', w=1), Pr('takeoff', c=rng.choice([300, 500, 1000]), v=rng.choice([0, 250]))])]
+        if not _hl_rational(prog, *cfg):
             continue
+        mode = 'with'
         if rng.random() < 0.3:
-            prog = prog[:rng.randint(0, len(prog))] + [RAISE]
-        out.append({'helper': 'PHC', 'mode': 'with', 'prog': prog, 'dh': dh, 'dv': dv, 'dl': dl, 'sched': {'kind': 'fifo'}})
+            prog = prog[:rng.randint(0, len(prog))] + [rng.choice(RAISES)]
+        elif rng.random() < 0.3:
+            mode = 'explicit'
+        out.append(hl_sc(cfg, mode, prog))
         k += 1
     return out
 
 
 FIRE = {'CmdWake': 'cmd', 'CmdPut': 'cmd', 'CmdSpStart': 'cmd', 'CmdTerm': 'cmd', 'CmdJoin': 'cmd',
-        'SpGet': 'sp', 'SpTimeout': 'sp', 'Tick': 'tick'}
+        'SpGet': 'sp', 'SpTimeout': 'sp', 'SpSent': 'sp', 'Tick': 'tick'}
 
 
-def scenario_from_behaviour(beh, helper, dh, dv, dl):
+def scenario_from_behaviour(beh, helper, mode, cfg):
+    dh, dv, dl, x0, y0, z0 = cfg
     last = beh[-1][1]
     if last['cst'] not in ('done', 'crashed'):
         return None
     fires = [FIRE[tlc.parse_label(lab)[0]] for lab, _ in beh[1:] if tlc.parse_label(lab)[0] in FIRE]
-    sc = {'helper': helper, 'mode': 'with', 'prog': [dict(p) for p in last['prog']], 'dh': dh, 'dv': dv, 'dl': dl,
+    lat, ncalls = [], 0         # the environment's choice for every hover setpoint: how long the link keeps the sender
+    for lab, st in beh[1:]:
+        if tlc.parse_label(lab)[0] in ('SpGet', 'SpTimeout') and len(st['calls']) > ncalls:
+            lat.append(st['deadline'] - st['now'] if st['sp'] == 'sending' else 0)
+        ncalls = len(st['calls'])
+    sc = {'helper': helper, 'mode': mode, 'prog': [dict(p) for p in last['prog']], 'dh': dh, 'dv': dv, 'dl': dl,
+          'x0': x0, 'y0': y0, 'z0': z0, 'lat': lat if any(lat) else [], 'latcyc': False,
           'sched': {'kind': 'spec', 'fires': fires}}
     exp = {'calls': list(last['calls']), 'outcome': last['outcome'], 'now': last['now'],
            'vels': [[(c['t'] + 500) // 1000] + [(c[k]['n'], c[k]['d'], c[k]['p']) for k in ('vx', 'vy', 'vz', 'yaw')]
@@ -896,10 +1077,10 @@ def _in_child(fn, arg):
 
 
 def _sim_job(a):
-    cfg, helper, dh, dv, dl, nsim, seed = a
+    cfg, helper, mode, hcfg, nsim, seed = a
     rs, behs = tlc.simulate('MC_Flight.tla', cfg, num=nsim, depth=900, seed=seed % 100000, timeout=1200)
     rs.output = rs.output[-4000:]
-    return rs, [x for x in (scenario_from_behaviour(b, helper, dh, dv, dl) for b in behs) if x]
+    return rs, [x for x in (scenario_from_behaviour(b, helper, mode, hcfg) for b in behs) if x]
 
 
 def run_scenarios(scs, mutant=None):
@@ -909,11 +1090,11 @@ def run_scenarios(scs, mutant=None):
 def cfg_key(t):
     if t['helper'] == 'MC':
         return ('MC', t['dh'])
-    return ('PHC', t['dh'], t['dv'], t['dl'])
+    return ('PHC', t['dh'], t['dv'], t['dl'], t['x0'], t['y0'], t['z0'])
 
 
 def _slim(t, i):
-    d = {k: t[k] for k in ('helper', 'mode', 'prog', 'dh', 'dv', 'dl', 'ev', 'outcome')}
+    d = {k: t[k] for k in ('helper', 'mode', 'prog', 'dh', 'dv', 'dl', 'x0', 'y0', 'z0', 'ev', 'outcome')}
     d['id'] = i
     return d
 
@@ -976,6 +1157,10 @@ def signature(t, clause, at):
             if e['e'] == 'prim':
                 k = e['k']
         w = t['prog'][k - 1]['op'] if k else 'takeoff'
+        if w == 'raise' and t['prog'][k - 1]['a']:
+            w += ':' + KINDS[t['prog'][k - 1]['a']].__name__
+        if t.get('lat') and clause.startswith('Hover'):
+            w += '/slow-link'
     return '%s/%s/%s' % (clause, t['helper'], w)
 
 
@@ -991,7 +1176,8 @@ def report(out, traces, scs, bad):
             ix = max([i for i, e in enumerate(t['ev']) if e['e'] == 'exit'] or [0])
             around = [e for e in t['ev'][max(0, ix - 2):] if e['e'] not in ('tick', 'wake')][:10]
         out.violation(signature(t, clause, at), clause,
-                      {'helper': t['helper'], 'mode': t['mode'], 'program': t['prog'], 'defaults_mm': [t['dh'], t['dv'], t['dl']],
+                      {'helper': t['helper'], 'mode': t['mode'], 'program': t['prog'], 'defaults_mm': [t['dh'], t['dv'], t['dl']], 'start_mm': [t['x0'], t['y0'], t['z0']],
+                       'link_latency_ms': {'per_hover_send': t['lat'], 'cyclic': t['latcyc']},
                        'outcome': t['outcome'], 'escaped_exception': t['exc'], 'event_index': at, 'events': around},
                       {'scenario': sc})
 
@@ -1004,7 +1190,9 @@ def main(tier, seed, replay=None):
         'time advances only when no thread can run (a step takes no virtual time) -- this is the "scheduling quantum" '
         'of DESIGN 3.1(9); slack on the update period: 1 ms',
         'programs use the with-statement (optionally raising in the body after any prefix) or explicit take_off()/land(); '
-        'take_off/land are not called inside a body; between two primitives the body may let virtual time pass '
+        'MotionCommander: take_off/land are not called inside a body; PositionHlCommander: land()/take_off() may be '
+        'called in the body (several flights of one object: moves and land() only while flying, take_off() only while '
+        'landed), the object may be constructed at a start position that is not the origin; between two primitives the body may let virtual time pass '
         '("wait" = its own time.sleep, 50 ms .. 1 s), which requests nothing and must not disturb the stream',
         'numbers: displacement vectors have rational length, durations are whole milliseconds except for circles '
         '(symbolic multiples of pi); floats are compared as exact rationals after snapping within relative 1e-9',
@@ -1014,6 +1202,12 @@ def main(tier, seed, replay=None):
         'it; the product must equal the requested displacement component-wise (magnitude of the velocity is not demanded)',
         'a primitive that raises (zero-length move) owes no motion; the exception then leaves the context like any other',
         'the crazyflie is a stand-in with the real Commander/HighLevelCommander; calls are recorded at their entry',
+        'the exception that leaves the body is an Exception subclass, KeyboardInterrupt, SystemExit, GeneratorExit or a direct '
+        'BaseException subclass',
+        'the link may keep the sender of a hover setpoint for some virtual time (0 .. 600 ms per send); "at least every update '
+        'period" is then counted from the moment the previous send returned (the time a send spends in the link is not the '
+        "helper's), and a velocity command is in force from the moment the setpoint thread takes it from its queue (without "
+        'latency: the instant it was issued)',
     ]
     if replay:
         rp = json.load(open(replay))['replay']
@@ -1026,21 +1220,24 @@ def main(tier, seed, replay=None):
         return out.finish()
 
     # 1. design spec: exhaustive; every named deviation must be refuted (vacuity guard)
-    for cfg in (('MC_Flight_quick.cfg', 'MC_Flight_timed_quick.cfg', 'MC_Flight_hl_quick.cfg') if tier == 'quick'
-                else ('MC_Flight_thorough.cfg', 'MC_Flight_thorough4.cfg', 'MC_Flight_timed_thorough.cfg',
-                      'MC_Flight_hl_thorough.cfg')):
+    for cfg in (('MC_Flight_quick.cfg', 'MC_Flight_timed_quick.cfg', 'MC_Flight_lat_quick.cfg', 'MC_Flight_hl_quick.cfg',
+                 'MC_Flight_hl_cycle_quick.cfg') if tier == 'quick'
+                else ('MC_Flight_thorough.cfg', 'MC_Flight_thorough4.cfg', 'MC_Flight_timed_thorough.cfg', 'MC_Flight_lat_thorough.cfg',
+                      'MC_Flight_hl_thorough.cfg', 'MC_Flight_hl_cycle_thorough.cfg')):
         r = tlc.check('MC_Flight.tla', cfg, coverage=(tier == 'thorough'), timeout=3000)
         out.add_tlc(cfg, r)
-    for bug in ('landdiv0', 'neglandsleep', 'noterm', 'swapfinal', 'nointegrate', 'norecord', 'skipdup', 'turnmod'):
+    for bug in ('landdiv0', 'neglandsleep', 'noterm', 'swapfinal', 'nointegrate', 'norecord', 'skipdup', 'turnmod', 'kbdfast', 'negtimeout',
+                'takeoffadd'):
         rb = tlc.expect_violation('MC_Flight.tla', 'MC_Flight_bug_%s.cfg' % bug, timeout=900)
         out.sensitivity['spec:Bug=' + bug] = 'refuted (%s) after %d states' % (rb.violated, rb.distinct)
 
     # 2. spec -> code: TLC behaviours (program + firing order) driven through the real classes
     nsim = 150 if tier == 'quick' else 1500
     sims = []
-    for cfg, helper, dh, dv, dl in (('SIM_Flight.cfg', 'MC', 300, 500, 0), ('SIM_Flight_hl.cfg', 'PHC', 500, 500, 0)):
-        rs, some = _in_child(_sim_job, (cfg, helper, dh, dv, dl, nsim, seed))
-        out.add_tlc('%s (-simulate num=%d)' % (cfg, nsim), rs)
+    for cfg, helper, mode, hcfg, share in (('SIM_Flight.cfg', 'MC', 'with', (300, 500, 0, 0, 0, 0), 1), ('SIM_Flight_hl.cfg', 'PHC', 'with', HL_A, 2),
+                                           ('SIM_Flight_hl_cycle.cfg', 'PHC', 'explicit', HL_C, 2)):
+        rs, some = _in_child(_sim_job, (cfg, helper, mode, hcfg, nsim // share, seed))
+        out.add_tlc('%s (-simulate num=%d)' % (cfg, nsim // share), rs)
         sims += some
     sim_scs = [x[0] for x in sims]
     sim_traces = run_scenarios(sim_scs)
@@ -1078,7 +1275,8 @@ def main(tier, seed, replay=None):
                                     'at_event': t['verdict'][3], 'events': t['ev'][max(0, t['verdict'][3] - 3):t['verdict'][3]]}
                                    for t, sc in zip(all_traces, all_scs) if t['verdict'][0] == 'ok' and not t['verdict'][2]][:5]
     out.evaluations = len(all_traces)
-    out.distinct = len({json.dumps([t['helper'], t['mode'], t['prog'], t['dh'], t['dv'], t['dl'], t['schedule']], sort_keys=True)
+    out.distinct = len({json.dumps([t['helper'], t['mode'], t['prog'], t['dh'], t['dv'], t['dl'], t['x0'], t['y0'], t['z0'], t['lat'], t['latcyc'],
+                                    t['schedule']], sort_keys=True)
                         for t in all_traces})
     out.exhaustive = True
     out.rule = ('execution = (helper, constructor defaults, with/explicit, program, exception point, schedule); sources: '
@@ -1087,10 +1285,14 @@ def main(tier, seed, replay=None):
                 'every prefix under the two extreme interleaving policies, plus all MotionCommander programs up to '
                 'length 2 that combine these with a pause or a full turn (thorough: also a longer pause, more than a full turn), '
                 'plus all MotionCommander programs of length %s over the %d pause/repeat primitives (%d executions; exhaustive refers to this space), '
+                'the exception after the program also as KeyboardInterrupt/SystemExit/GeneratorExit/BaseException subclass, '
+                'MotionCommander programs up to length 1 and pause/repeat programs of length 2 (thorough: 3) under %d link-latency '
+                'patterns, PositionHlCommander programs from a start position that is not the origin and all well-formed '
+                'land/take_off/move programs up to length %d (several flights of one object); '
                 'seeded random longer programs (with pauses, turns of a full revolution and more, polling loops that command '
                 'an unchanged velocity again) under random/PCT schedules; distinct = distinct (program, schedule) pairs'
-                % ((2, len(MC_QUICK), len(HL_QUICK), '3', len(MC_TIMED), n_enum) if tier == 'quick'
-                   else (3, len(MC_QUICK + MC_MORE), len(HL_QUICK + HL_MORE), '3 and 4', len(MC_TIMED), n_enum)))
+                % ((2, len(MC_QUICK), len(HL_QUICK), '3', len(MC_TIMED), n_enum, len(LAT_PATTERNS), 3) if tier == 'quick'
+                   else (3, len(MC_QUICK + MC_MORE), len(HL_QUICK + HL_MORE), '3 and 4', len(MC_TIMED), n_enum, len(LAT_PATTERNS), 4)))
     picks = [0, len(sim_scs), len(all_scs) - 1] + [b[0] for b in bad[:2]]
     out.samples = [{'helper': all_traces[i]['helper'], 'program': all_traces[i]['prog'], 'schedule_kind': all_scs[i]['sched']['kind'],
                     'outcome': all_traces[i]['outcome'], 'verdict': all_traces[i]['verdict'],
@@ -1101,13 +1303,17 @@ def main(tier, seed, replay=None):
     jobs, owner = [], []
     # a mutant that needs a particular kind of program is tried on programs of that kind (the choice of test
     # programs for the self-test; every one of them passed on the tree under test)
-    needs = {'MC:duplicate_command_skipped': lambda pr: any(p['op'] == 'wait' for p in pr[1:]),
-             'MC:turn_angle_mod_360': lambda pr: any(p['op'] == 'turn' and p['b'] >= 360 for p in pr)}
+    def base_exc(sc):
+        return sc['prog'] and sc['prog'][-1]['op'] == 'raise' and sc['prog'][-1]['a'] >= 1
+    needs = {'MC:duplicate_command_skipped': lambda sc: len(sc['prog']) >= 2 and any(p['op'] == 'wait' for p in sc['prog'][1:]),
+             'MC:turn_angle_mod_360': lambda sc: len(sc['prog']) >= 2 and any(p['op'] == 'turn' and p['b'] >= 360 for p in sc['prog']),
+             'MC:wait_minus_send_time_unclamped': lambda sc: any(x > 200 for x in sc.get('lat') or []),
+             'MC:exit_fast_path_unless_Exception': base_exc, 'PHC:exit_lands_only_for_Exception': base_exc,
+             'PHC:takeoff_adds_height': lambda sc: sc.get('z0') or any(p['op'] == 'takeoff' for p in sc['prog'])}
     for name in MUTANTS.names():
         helper = name.split(':')[0]
-        need = needs.get(name, lambda pr: True)
-        pool = [i for i in good if all_scs[i]['helper'] == helper and len(all_scs[i]['prog']) >= 2
-                and need(all_scs[i]['prog'])]
+        need = needs.get(name, lambda sc: len(sc['prog']) >= 2)
+        pool = [i for i in good if all_scs[i]['helper'] == helper and need(all_scs[i])]
         step = max(1, len(pool) // (25 if tier == 'quick' else 150))
         for i in pool[::step]:
             jobs.append((all_scs[i], name))
